@@ -23,6 +23,7 @@ type vfC10Case struct {
 	Delete    bool       `json:"delete"`
 	Initiator string     `json:"initiator"` // api | ui | sigint | sigterm
 	Plan      []vfYieldStep `json:"plan,omitempty"` // schedule perturbation (yield-instrumented build only)
+	LateUs    int        `json:"late_us,omitempty"` // api stops: published this long after the message has passed
 }
 
 type vfC10Res struct {
@@ -84,7 +85,15 @@ func vfC10Run(cs vfC10Case, res *vfC10Res) string {
 	fire := func() {
 		switch cs.Initiator {
 		case "api":
-			sess.filter.StopTransferringFiles(cs.Delete)
+			if cs.LateUs > 0 {
+				// a moment after the message has passed: the receiving side has taken it in and moved on (into a hold of the plan)
+				go func() {
+					time.Sleep(time.Duration(cs.LateUs) * time.Microsecond)
+					sess.filter.StopTransferringFiles(cs.Delete)
+				}()
+			} else {
+				sess.filter.StopTransferringFiles(cs.Delete)
+			}
 		case "sigint":
 			sess.signalServer(syscall.SIGINT)
 		case "sigterm":
@@ -292,7 +301,10 @@ func TestVF_C10(t *testing.T) {
 							if int(h%uint64(shards)) != shard {
 								continue
 							}
-							if (int(h/uint64(shards)%1000003)+seed)%stride != 0 {
+							// the hand-over from one file to the next (MD5, its acknowledgement, the next NAME) is never thinned for the stops
+							// through the API: a few points per scenario, and the place where a stop meets the loop over the files
+							core := initiator == "api" && vfBetweenFiles(dir, k)
+							if !core && (int(h/uint64(shards)%1000003)+seed)%stride != 0 {
 								continue
 							}
 							if k == 0 && (initiator == "sigint" || initiator == "sigterm") {
@@ -435,6 +447,63 @@ func TestVF_C10Perturbed(t *testing.T) {
 		if msg != "" {
 			c.violation("dryrun", sc, msg)
 			t.Fatalf("%s", msg)
+		}
+		// the loop over the files: a stop that arrives just when one file has been acknowledged and the next has not begun. Every
+		// statement of sendFiles / recvFiles in turn is held for 15 ms on each pass, and the stop is published when the first
+		// MD5 acknowledgement of the transfer passes: it then lands inside that hold.
+		firstAck := -1
+		ackDir := "s2c"
+		if !sc.Cfg.Upload {
+			ackDir = "c2s"
+		}
+		ackN := ns
+		if !sc.Cfg.Upload {
+			ackN = nc
+		}
+		for k := 0; k < ackN; k++ {
+			ms := vfLastDry.s2c
+			if !sc.Cfg.Upload {
+				ms = vfLastDry.c2s
+			}
+			if k < len(ms) && ms[k].Typ == "SUCC" && vfBetweenFiles(ackDir, k) {
+				firstAck = k
+				break
+			}
+		}
+		if firstAck >= 0 && sc.Files > 1 {
+			fn := "func (t *trzszTransfer) sendFiles("
+			if !sc.Cfg.Upload {
+				fn = "func (t *trzszTransfer) recvFiles("
+			}
+			for _, site := range vfSitesInFunc("transfer.go", fn) {
+				for _, del := range []bool{true, false} {
+					h := vfPointHash(sc.Name, "fileloop", site, del)
+					if int(h%uint64(shards)) != shard {
+						continue
+					}
+					var plan []vfYieldStep
+					for hit := 0; hit < 6; hit++ {
+						plan = append(plan, vfYieldStep{Site: site, Hit: hit, Delay: 15000})
+					}
+					cs := vfC10Case{Scen: sc, Ev: vfEvent{Dir: ackDir, K: firstAck, Before: false}, Delete: del, Initiator: "api", Plan: plan, LateUs: 6000}
+					var res vfC10Res
+					m := vfGuard(func() string { return vfC10Run(cs, &res) })
+					if m != "" && (strings.Contains(m, "did not end") || strings.Contains(m, "ended only")) {
+						var r2 vfC10Res
+						if m2 := vfGuard(func() string { return vfC10Run(cs, &r2) }); m2 == "" {
+							c.inconclusive("timing_not_reproduced")
+							m = ""
+						}
+					}
+					vfC10Eval(c, cs, &res)
+					c.label("perturbed_file_loop")
+					if m != "" {
+						c.violation("perturbed", cs, m)
+						t.Errorf("%s", m)
+						return
+					}
+				}
+			}
 		}
 		for _, site := range sites {
 			for _, del := range []bool{true, false} {
